@@ -126,7 +126,10 @@ def gen_group(rng, size=None, pending=False):
             suf = ",,%d" % rng.choice([127, 64, 30])
         last = (i == n - 1)
         amp = "" if (last and not pending) else ("&" if rng.random() < 0.8 else "&%d" % rng.choice([1, 2, 10, 48]))
-        leaves.append(("note", name + acc, ln, suf, amp, True))
+        # octave-once: for this note only, tied or not (written as part of the note, so that the variant with the
+        # groups replaced by rests drops it together with the note)
+        once = rng.choice(["`", '"']) if rng.random() < 0.12 else ""
+        leaves.append(("note", once + name + acc, ln, suf, amp, True))
         if not last:
             r = rng.random()
             if pat == "jump" and r < 0.5:
